@@ -186,7 +186,7 @@ theorem case_scope_wrapper_transparent (c : Corpus) (q : Q) : evalQ c (stripCase
 /-! ### the central theorem: `Parse (render g)` selects what the documentation says -/
 
 /-- **`token_roundtrip`** (unquoted and quoted): a rendered atom — any field spelling; value unquoted, made of plain
-    bytes (no blank, quote, parenthesis) and backslash escapes, or in the documented quoted form — is read back by
+    bytes (no blank, no quote), backslash escapes and balanced parentheses, or in the documented quoted form — is read back by
     `nextToken` as ONE token of the kind of its field whose text is the value (for `meta.`: `<name>:<value>`) and
     whose consumed input is exactly the rendering, whatever follows (end of input, blank, closing parenthesis). -/
 theorem token_roundtrip_atom (f : Field) (a : Nat) (q : Bool) (t n rest : B) (hg : goodAtom f q t n = true)
@@ -222,7 +222,7 @@ theorem abstract_parse_sem (c : Corpus) (he : EmptyOK c) (O : Oracle) (hO : Auto
   abstractParse_sem c he O hO g q hok hl h d hd
 
 /-- **C06_parse_sem (partial).** For every grammar tree `g` of the documented EBNF whose rendering is covered
-    (`goodQ`, decidable: unquoted values of plain bytes and backslash escapes, groups that the tokenizer opens — i.e. not the known finding "tight
+    (`goodQ`, decidable: unquoted values of plain bytes, backslash escapes and balanced parentheses; groups that the tokenizer opens — i.e. not the known finding "tight
     group") and for which the documented meaning is defined (`semOKQ`, decidable: no `regex:` field — the other known
     finding —, documented `type:` values, at most one `type:` per group, no `-` on a directive), if the items of `g`
     are acceptable to the parser (`abstractParse O g = ok q`: every atom is a valid value for its field and every
